@@ -1130,7 +1130,88 @@ pub fn c16() -> Simple {
 // ------------------------------------------------------------------------------------------
 // C17 — long data
 
-fn gen_c17(r: &mut Rng, _t: Tier, _job: u64) -> Plan {
+/// long data arriving in multi-packet chunks (>= 2^24-1 bytes) next to small ones
+fn gen_c17_giant(r: &mut Rng) -> Plan {
+    let mk_prep = |id: u32, np: usize| Cmd {
+        seq: 0,
+        kind: CmdKind::Prepare(Blob::lit(b"p")),
+        act: Act::Prepare(PrepAct::Reply {
+            id,
+            params: (0..np)
+                .map(|_| ColSpec {
+                    table: Blob::lit(b""),
+                    name: Blob::lit(b"?"),
+                    coltype: 0xfc,
+                    flags: 0,
+                })
+                .collect(),
+            cols: vec![],
+        }),
+    };
+    let mut cmds = vec![mk_prep(1, 2), mk_prep(2, 1)];
+    let big_len = (U24 as i64 + r.irange(-9, 3)) as u32; // payload = 7 + data
+    let chunks: Vec<(u32, u16, Blob)> = vec![
+        (1, 0, blob_bytes(r, 5)),
+        (
+            1,
+            0,
+            Blob::Gen {
+                len: big_len,
+                salt: r.next() as u32,
+                ascii: false,
+            },
+        ),
+        (2, 0, blob_bytes(r, 9)),
+        (1, 0, blob_bytes(r, 3)),
+        (1, 1, blob_bytes(r, 300)),
+    ];
+    for (stmt, param, data) in chunks {
+        cmds.push(Cmd {
+            seq: 0,
+            kind: CmdKind::LongData { stmt, param, data },
+            act: Act::None,
+        });
+    }
+    for (stmt, np) in [(2u32, 1usize), (1, 2), (1, 2)] {
+        cmds.push(Cmd {
+            seq: 0,
+            kind: CmdKind::Execute {
+                stmt,
+                flags: 0,
+                iters: 1,
+                block: ParamBlock {
+                    bind: Some(vec![(0xfc, 0); np]),
+                    values: (0..np)
+                        .map(|_| PVal::Bytes {
+                            data: blob_bytes(r, 4),
+                            form: 0,
+                        })
+                        .collect(),
+                    raw: None,
+                    stale_types: None,
+                },
+            },
+            act: Act::Program(simple_ok_program()),
+        });
+    }
+    let mut cmds = cmds;
+    fix_long_data(&mut cmds);
+    let mut p = Plan::basic(cmds);
+    p.arrival = Arrival::upfront();
+    p.reads = ReadSched {
+        explicit: vec![],
+        cuts: vec![],
+        tail: Tail::Fixed(*r.pick(&[1_048_576u32, 2_097_152, 3_000_001])),
+    };
+    let (h, _) = header_offsets(&p);
+    add_header_cuts(r, &mut p.reads, &h, 80);
+    p
+}
+
+fn gen_c17(r: &mut Rng, t: Tier, job: u64) -> Plan {
+    if job < if t == Tier::Quick { 6 } else { 200 } {
+        return gen_c17_giant(r);
+    }
     let ns = 1 + r.usize_below(3);
     let mut cmds = Vec::new();
     let mut st: Vec<(u32, usize, Option<Vec<(u8, u8)>>)> = Vec::new();
